@@ -13,17 +13,34 @@ def _on_alarm(signum, frame):
     raise Hang()
 
 
+_installed = False
+
+
 @contextmanager
 def deadline(seconds=2.0):
     """Watchdog around library calls: a non-terminating call (e.g. a propagation loop that never
     reaches a fixpoint) must become a violation, not a hung harness.  Main thread only."""
-    old = signal.signal(signal.SIGALRM, _on_alarm)
+    global _installed
+    if not _installed:
+        signal.signal(signal.SIGALRM, _on_alarm)
+        _installed = True
     signal.setitimer(signal.ITIMER_REAL, seconds)
     try:
         yield
     finally:
         signal.setitimer(signal.ITIMER_REAL, 0)
-        signal.signal(signal.SIGALRM, old)
+
+
+def arm(seconds=2.0):
+    global _installed
+    if not _installed:
+        signal.signal(signal.SIGALRM, _on_alarm)
+        _installed = True
+    signal.setitimer(signal.ITIMER_REAL, seconds)
+
+
+def disarm():
+    signal.setitimer(signal.ITIMER_REAL, 0)
 
 
 def tj(x):
